@@ -40,7 +40,7 @@ def rule(tier):
 
 
 def bounds(tier):
-    return {"depth_N": 4, "k_max": 3 if tier == "quick" else 4, "thresholds": ["1/2", "1", "3"]}
+    return {"depth_N": 4, "k_max": 3 if tier == "quick" else 4, "thresholds": ["1/2", "1", "3", "+ the value of a point-mass law at n (first two per monomial)"]}
 
 
 def set_partitions(n):
@@ -106,6 +106,11 @@ def cases(tier, seed):
                  "c = 0\nx = 1\nwhile true:\n    c = Bernoulli(1/3)\n    x = x + c\nend\n",
                  "x = 0\nwhile true:\n    x = DiscreteUniform(0, 3)\nend\n"):
         out.append({"input": {"kind": "program", "text": text, "monomials": ["x"], "high": True}, "N": 3, "kmax": 6})
+    # deterministic sequences whose closed forms carry no special cases: the law is a point mass that crosses the thresholds
+    for text, monos in (("c = 1\nx = 1\nwhile true:\n    x = x + c\nend\n", ["x", "x*c"]),
+                        ("x = 1\ny = 2\nwhile true:\n    y = y + x\nend\n", ["y", "x*y"]),
+                        ("x = 1\nwhile true:\n    x = 2*x\nend\n", ["x"])):
+        out.append({"input": {"kind": "program", "text": text, "monomials": monos}, "N": 4, "kmax": kmax})
     for kv in GC_GRID:
         for k in (3, 4, 5):
             if any(kv[j] != 0 for j in range(k + 1, 6)):
@@ -245,11 +250,20 @@ def run_program(case):
                 kk = "cumulant:" + exc_name(e)
                 stats["refusals"][kk] = stats["refusals"].get(kk, 0) + 1
         # tail bounds through the printed --at_n lines
-        for a in ("1/2", "1", "3"):
+        plan = {a: list(range(N + 1) if THOROUGH else (1, 3)) for a in ("1/2", "1", "3")}
+        # thresholds that coincide with a point mass of the law (degenerate second moment of M - a): the first two per monomial
+        extra = 0
+        for n in range(N + 1):
+            if len(laws[n]) == 1 and extra < 2:
+                v = next(iter(laws[n]))
+                if v > 0 and n not in plan.get(str(v), []):
+                    plan.setdefault(str(v), []).append(n)
+                    extra += 1
+        for a in plan:
             if tainted() or spent_out():
                 break
             af = F(a)
-            for n in (range(N + 1) if THOROUGH else (1, 3)):
+            for n in plan[a]:
                 if spent_out():
                     break
                 try:
@@ -290,7 +304,10 @@ def run_program(case):
                         lb = sympy.sympify(m.group(1))
                         stats["evaluations"] += 1
                         if lb.is_number and lb.is_real and sympy.Rational(p_gt.numerator, p_gt.denominator) < lb:
-                            res["violations"].append({"sub": "P(%s > %s) lower" % (mono, a),
+                            # the law is a point mass exactly at the threshold: E((M - a)**2) = 0 and the quotient of the
+                            # Paley-Zygmund bound is 0/0 (recorded call-site finding); every other case keeps its own label
+                            point = len(law) == 1 and af in law
+                            res["violations"].append({"sub": "lower-bound-point-mass-at-threshold" if point else "P(%s > %s) lower" % (mono, a),
                                                       "detail": {"n": n, "true_tail": str(p_gt), "reported_bound": str(lb), "program": text}})
                     except Exception:
                         pass
